@@ -1,89 +1,211 @@
-HOOK_COMMITS = ["d4c9662", "221713e"]
+HOOK_COMMITS = ["d4c9662", "221713e", "e216784", "f05d5b0"]
 
-_SRV = ("Tied to the code by the S-world: the real serveTunnel with scripted handlers against a raw client in a synctest bubble, one stimulus per "
-        "quiescence, every observation line (frames emitted, call results, events, table, lastSeen) compared with the model in this property's view; "
-        "the property's monitor is evaluated on every implementation line.")
+_SRV = ("S-world: the real serveTunnel with scripted handlers against a raw client in a synctest bubble, one stimulus per quiescence; every observation "
+        "line (frames emitted, call results, events, stream table, lastSeen, goroutine census) is compared with the Lean model's line in this property's view, "
+        "and the property's monitor is evaluated on every implementation line.")
+_CLI = ("C-world: the real newTunnelChannel / tunnelChannel against a raw server (incl. a peer that answers new_stream from inside Send), same protocol.")
+_W1 = ("W1: real client endpoint and real server endpoint joined by a FIFO carrier in one bubble, each end compared with its own model, end-to-end monitor on top.")
 
-NOTES = ("Technique family: machine-checked proof in Lean 4. Every check = (1) facts regenerated from /repo + lake build of the "
-         "property's theorem module + axiom audit, (2) correspondence: implementation (built from /repo, -tags verif) vs the "
-         "model's executable definitions on the same inputs, (3) the specification evaluated on the implementation's results "
-         "(search for a failing input). See DESIGN.md.")
+NOTES = ("Technique family: machine-checked proof in Lean 4. Every check = (1) facts and the lock/access table regenerated from /repo by the go/ast extractor, "
+         "lake build of the property's theorem module, axiom audit (#print axioms on every theorem of the property file: subset of propext, Classical.choice, "
+         "Quot.sound; no sorry/admit/native_decide/axiom); (2) correspondence: the implementation built from /repo's working tree with -tags verif and the "
+         "model's executable definitions (compiled Lean driver) run on the same operation sequences and their outputs are diffed; (3) the property's "
+         "specification (monitor) is evaluated on the implementation's own results, which is the search for a concrete failing input. A broken theorem, "
+         "obligation or correspondence without a concrete failing input is reported as VIOLATION ... no-failing-input-found. See DESIGN.md Part A.")
 
-CLAIMS = {
-    "C18": {
-        "text": "Theorem C18_parse_eq_spec: for every list of grpc-timeout header values (arbitrary bytes, arbitrary length) the model of "
-                "timeoutFromHeaders returns exactly what the gRPC wire specification prescribes (1-8 digits + unit, saturating at 2^63-1 ns; "
-                "malformed => no deadline), with corollaries C18_wellformed, C18_malformed, C18_saturates. The model is tied to the code by "
-                "running VerifTimeoutFromHeaders and the Lean definition on >20k boundary and random inputs per run.",
-        "design_ref": "DESIGN.md 6 (C18)",
-        "note": "Trusted: Lean kernel; transcription of the gRPC timeout grammar into Timeout.spec; the differential harness. "
-                "Modelled, not proved: that context.WithTimeout(parsed) is the handler's deadline.",
-        "technique": "Lean 4 theorem (parse = spec, all inputs) + differential correspondence on the real parser",
-    },
+CLAIMS = {}
+
+CLAIMS["C01"] = {
+    "text": "Theorems: chunking then reassembly is the identity for both senders, any window / chunk size / message (C01_pump_reassembles, C01_sendAll_reassembles[_code]); "
+            "reassembly is compositional (C01_parse_append); end to end over the two endpoint models composed through ANY FIFO carrier prefix, for every interleaving of "
+            "calls, frames from the peer, credit, cancellations and context ends: the messages a handler has received are a prefix of those the caller submitted "
+            "(C01_request_prefix), likewise responses (C01_response_prefix), and nothing is fabricated, duplicated or reordered (C01_request_no_fabrication). "
+            "Hypotheses are the gRPC caller/handler contract (one SendMsg and one RecvMsg at a time) and FIFO delivery. Tied to the code by " + _W1 + " " + _SRV + " " + _CLI +
+            " Payloads are keyed real bytes checked byte for byte by the harness; pump/sendAll are compared with the real senders on boundary and random sizes.",
+    "design_ref": "DESIGN.md A2 (C01)",
+    "note": "Trusted: Lean kernel; FIFO, reliable carrier until it ends; harness/differ. Not proved: the completeness half ('EOF implies everything arrived') is "
+            "checked by the monitor (incomplete-on-ok) on every run, the theorem covers the prefix/safety half. Protobuf encoding of application messages is outside the model.",
+    "technique": "Lean 4 round-trip and prefix-refinement theorems over composed endpoint models + step-exact correspondence in three worlds",
 }
-
+CLAIMS["C02"] = {
+    "text": "Theorems: the status a handler returns is the status the caller's terminal result carries (C02_status_roundtrip; OK = end of stream, plain errors = Unknown); "
+            "the handler's return emits the headers if not yet sent, then exactly one close frame with that status and the accumulated trailers (C02_return_frames, "
+            "C02_trailers_accumulate); fed to the caller's stream that frame sets exactly that result, exactly those trailers, published together, and Trailer() returns "
+            "them (C02_status_trailers_exact); SendHeader's frame is what Header() returns (C02_headers_exact); metadata crosses the wire unchanged iff encodable, and is "
+            "unencodable iff some string is not valid UTF-8 (C02_metadata_exact, C02_metadata_unencodable_iff). Tied to the code by the metadata world (real grpc-go on "
+            "bufconn: all 17 codes, details, multi-valued / binary / absent metadata, call options, per-RPC credentials), by " + _W1 + " " + _CLI + " and by the race "
+            "stress for the publication order of trailers (D4). Open finding D8 (non-UTF-8 '-bin' values or status messages kill the tunnel) is reported as KNOWN-FINDING.",
+    "design_ref": "DESIGN.md A2 (C02), A4 (D4, D5, D8)",
+    "note": "Trusted: Lean kernel; Metadata.lean's UTF-8 predicate equals protobuf-go's (compared on every run by TestPureUTF8); grpc-go. Status details are opaque to "
+            "the model (carried by the correspondence only). PARTIAL where the property demands delivery of non-UTF-8 values: the code does not do it (D8, recorded, not repaired: wire-format change).",
+    "technique": "Lean 4 theorems over endpoint + metadata models; differential worlds incl. real grpc-go; race stress",
+}
+CLAIMS["C03"] = {
+    "text": "Theorems (server and client endpoint models, every stimulus list): a stimulus addressed to one RPC changes only that RPC's stream object and emits only "
+            "frames/completions tagged with its id (locality: C03_frame_local, C03_call_local, client counterparts); rejections and stream-level errors never end the tunnel; "
+            "with flow control negotiated the receive loop never blocks behind a stream (C03_no_hol, C03_no_hol_client: fc streams are never 'unsupported/blocking'); "
+            "plus the regenerated code-level premise that no blocking call is made under a receive-loop lock (C03_no_blocking_call_under_loop_lock). Tied to the code by " +
+            _W1 + " " + _SRV + " " + _CLI + " with bystander/disturber workloads; monitor: loop-blocked-with-flow-control, tunnel-ended-by-rpc. D8 is an open finding here too.",
+    "design_ref": "DESIGN.md A2 (C03)",
+    "note": "Trusted: as C08. Bounded transport buffering is represented by the receive-loop-idle observation (B=1) and the lock-discipline premise, not by a finite-K carrier "
+            "theorem (listed under 'not built' in DESIGN.md A7).",
+    "technique": "Lean 4 locality/non-interference theorems over endpoint models + regenerated lock-discipline obligation + correspondence",
+}
+CLAIMS["C04"] = {
+    "text": "Theorems: from every reachable client state, closing the channel (Close, carrier error/EOF, channel context) gives every RPC a terminal result, ends its context, "
+            "releases every blocked RecvMsg/SendMsg/Header, empties the table, and no released call reports success or delivers a message (C04_client_close); it stays so "
+            "forever (C04_client_finished_never_blocks, C04_client_end_is_permanent) and new RPCs fail at once (C04_client_new_rpc_fails); when serve returns every stream "
+            "context has ended and no handler call stays blocked, then and ever after (C04_server_nothing_blocked, C04_server_returned_never_blocks); ended endpoints ignore "
+            "late frames (C04_ended_ignores_frames). Tied to the code by " + _W1 + " " + _CLI + " " + _SRV + " and the lifecycle world (real grpc-go on bufconn: Close on either "
+            "end, context cancel/expiry, Stop, carrier loss at every frame boundary, forward and reverse). Open finding D10 (revision zero: Stop hangs behind a non-reading handler) is KNOWN-FINDING.",
+    "design_ref": "DESIGN.md A2 (C04), A4 (D10, D11)",
+    "note": "Trusted: as C08; Go scheduling (released goroutines run). Done()/Err() values are checked by the worlds' monitors, not by a theorem.",
+    "technique": "Lean 4 invariants over all reachable endpoint states + termination-at-every-frame-boundary correspondence",
+}
 CLAIMS["C05"] = {
-    "text": "Theorems over the L-atomic model of flow control (sender load/CAS/park/wake, updateWindow add/signal, carrier, accept, dequeue, "
-            "credit callback; arbitrary window W>0, chunkMax>0, workload and schedule of any length): conservation of credit, no lost wake-up "
-            "(sender and reader), 'blocked only behind a full unread window', 'whole window restored when everything is read', no stuck state "
-            "(C05_no_stuck), every execution finite (explicit linear measure, C05_terminates) and complete delivery (C05_completes). The model "
-            "is tied to the real defaultSender/defaultReceiver by stepping them at verif yield points under a harness-controlled scheduler "
-            "and comparing the hook-visible state after every atomic action (random schedules each run; all schedules of tiny configurations "
-            "to a depth bound).",
-    "design_ref": "DESIGN.md 6 (C05), Appendix B.1",
-    "note": "Trusted: Lean kernel; sequential consistency of Go atomics/channels/cond at action granularity; FIFO carrier; the hook scheduler. "
-            "Multi-stream and bounded-carrier lifting (C03_progress) is stated in DESIGN.md and not yet mechanised: this check covers one stream and direction.",
+    "text": "Theorems over the L-atomic model of flow control (sender load/CAS/park/wake, updateWindow add/signal, carrier, accept, dequeue, credit callback; arbitrary "
+            "window W>0, chunkMax>0, workload and schedule of any length): conservation of credit, no lost wake-up (sender and reader), 'blocked only behind a full unread "
+            "window', 'whole window restored when everything is read', no stuck state (C05_no_stuck), every execution finite (explicit linear measure, C05_terminates) and "
+            "complete delivery (C05_completes); plus the regenerated code-level premise C05_no_blocking_call_under_loop_lock (the window update is sent with the receiver's "
+            "mutex released, so accept is always enabled). The model is tied to the real defaultSender/defaultReceiver by stepping them at verif yield points under a "
+            "harness-controlled scheduler and comparing the hook-visible state after every atomic action (random schedules each run; all schedules of tiny configurations to a depth bound), "
+            "probing at every quiescent point that the receiver's mutex is free.",
+    "design_ref": "DESIGN.md A2 (C05)",
+    "note": "Trusted: Lean kernel; sequential consistency of Go atomics/channels/cond at action granularity; FIFO carrier; the hook scheduler. One stream and direction per model "
+            "instance; independence of streams is C03.",
     "technique": "Lean 4 invariant + termination-measure proofs over all interleavings of an atomic-step model; hook-stepped correspondence with the real sender/receiver",
 }
 CLAIMS["C06"] = {
-    "text": "Theorems: in every reachable state of the L-atomic model sent <= W + credit delivered (C06_sender), every data frame <= chunkMax "
-            "= 16384 (C06_chunk_code, constant regenerated from the source), credit granted <= bytes dequeued (C06_credit), a conforming sender "
-            "never trips the receiver (C06_no_overrun); for the receiver alone against ANY operation sequence queued bytes <= W "
-            "(C06_receiver_bounded) and an oversize frame is refused without being queued (C06_overrun_refused). Tied to the code by the "
-            "hook-stepped flow world and by direct comparison of both senders' chunking with Framing.pump / Framing.sendAll.",
-    "design_ref": "DESIGN.md 6 (C06)",
-    "note": "Trusted: as C05. The stream-level consequence of an overrun (that RPC fails with ResourceExhausted, others continue) belongs to the "
-            "L-frame endpoint model (C09/C03 checks).",
+    "text": "Theorems: in every reachable state of the L-atomic model sent <= W + credit delivered (C06_sender), every data frame <= chunkMax = 16384 (C06_chunk_code, constant "
+            "regenerated from the source), credit granted <= bytes dequeued (C06_credit), a conforming sender never trips the receiver (C06_no_overrun); for the receiver alone "
+            "against ANY operation sequence queued bytes <= W (C06_receiver_bounded) and an oversize frame is refused without being queued (C06_overrun_refused). Tied to the code "
+            "by the hook-stepped flow world and by direct comparison of both senders' chunking with Framing.pump / Framing.sendAll; the window invariant is also monitored on every "
+            "frame of the S-, C- and W1 worlds.",
+    "design_ref": "DESIGN.md A2 (C06)",
+    "note": "Trusted: as C05. The stream-level consequence of an overrun (that RPC fails with ResourceExhausted, others continue) is C09_overrun_fails_stream / C03.",
     "technique": "Lean 4 invariant proofs (all schedules; all hostile operation sequences) + differential correspondence",
 }
-
+CLAIMS["C07"] = {
+    "text": "Theorems: every way an RPC ends at the caller (close frame, caller's cancel, deadline, protocol error, channel end) sets the terminal result once and it never "
+            "changes (C07_outcome_never_changes, C07_close_wins), releases the caller's blocked calls in the same step without waiting for the peer (C07_local_release, "
+            "C07_local_result) and leaves a finished stream quiet (C07_finished_stream_quiet); on the server a cancel frame or context end releases the handler "
+            "(C07_cancel_frame_releases_handler). WF invariant of all reachable client states. Tied to the code by " + _W1 + " " + _CLI + " " + _SRV +
+            " with cancellation / deadline at every phase (before headers, blocked on the window, mid-message, half-closed).",
+    "design_ref": "DESIGN.md A2 (C07)",
+    "note": "Trusted: as C08. The Header()-vs-watcher race is modelled as a two-outcome result (documented alternative); timers are the synctest fake clock.",
+    "technique": "Lean 4 invariants over endpoint models + correspondence with cancellation at every phase",
+}
 CLAIMS["C08"] = {
-    "text": "Server side: theorems over the L-frame server endpoint model for EVERY stimulus list (arbitrary frames from any peer, handler calls, ticks): "
-            "ids of created streams are pairwise strictly increasing and bounded by lastSeen (C08_ids_increasing: each id accepted at most once), reused/active ids "
-            "end the tunnel (C08_refuse_reused), frames for never-created ids end the tunnel (C08_never_created), frames for finished ids change nothing "
-            "(C08_ignore_finished), and dispatch picks exactly the descriptor named after the first slash, unary before stream (C08_dispatch). " + _SRV +
-            " Client-side id allocation under the streamCreation lock is covered by the W1/IdAlloc work listed in DESIGN.md (not yet part of this check).",
-    "design_ref": "DESIGN.md 6 (C08)",
-    "note": "Trusted: Lean kernel, S-world harness and differ, quiescence granularity (L-frame). Not yet covered here: concurrent newStream interleavings on the client.",
-    "technique": "Lean 4 invariant over all stimulus lists of an endpoint model + step-exact correspondence with the real server",
+    "text": "Theorems over the server endpoint model for EVERY stimulus list: ids of created streams are pairwise strictly increasing and bounded by lastSeen "
+            "(C08_ids_increasing), reused/active ids end the tunnel (C08_refuse_reused), frames for never-created ids end the tunnel (C08_never_created), frames for finished "
+            "ids change nothing (C08_ignore_finished), dispatch picks exactly the descriptor named after the first slash, unary before stream (C08_dispatch); client: allocated "
+            "ids strictly increase and new_stream is the first frame of its id (C08_client_ids_increasing, C08_client_new_stream_first). " + _SRV + " " + _CLI,
+    "design_ref": "DESIGN.md A2 (C08)",
+    "note": "Trusted: Lean kernel, harness and differ, quiescence granularity (L-frame). Concurrent NewStream calls are serialised by streamCreation (C15 table row); their "
+            "interleavings below that lock are not modelled.",
+    "technique": "Lean 4 invariant over all stimulus lists of an endpoint model + step-exact correspondence with the real endpoints",
 }
 CLAIMS["C09"] = {
-    "text": "Server endpoint: the model is a total function of every frame in every state; theorems: tunnel-level errors are exactly the three id violations "
-            "(C09_tunnel_errors_are_id_violations), a stream-level frame never touches other streams or tunnel state (C09_stream_frame_local), window overrun / unset "
-            "frame finish only that stream with the documented status (C09_overrun_fails_stream, C09_unset_fails_stream, C09_finish_emits_close, C09_finish_once), "
-            "absurd window updates wrap inside uint32, zero updates are ignored, and when serve returns every stream context is cancelled (C09_released); bounded "
-            "buffering is C06_receiver_bounded. " + _SRV + " Hostile families recover panics in the receive loop and report them.",
-    "design_ref": "DESIGN.md 6 (C09)",
-    "note": "Trusted: as C08. Go panics are outside the model (checked by the hostile families only). Client endpoint against a raw server: pending (C-world).",
-    "technique": "Lean 4 theorems over all states x all frames of a total endpoint model + hostile-peer correspondence",
+    "text": "Both endpoint models are total functions of every frame in every state; theorems: tunnel-level errors are exactly the id violations "
+            "(C09_tunnel_errors_are_id_violations), a stream-level frame never touches other streams or tunnel state (C09_stream_frame_local), window overrun / unset frame / "
+            "malformed envelope finish only that stream with the documented status (C09_overrun_fails_stream, C09_finish_emits_close), buffering is bounded (C09_bounded, "
+            "C06_receiver_bounded), the loop never blocks under flow control (C09_loop_never_blocks_fc), and when serve returns everything is released (C09_released); client "
+            "counterparts C09_client_*. " + _SRV + " " + _CLI + " Hostile generators: grammar-based deviations at every position, absurd window updates, bad settings; panics are "
+            "recovered by the harness and reported.",
+    "design_ref": "DESIGN.md A2 (C09), A4 (D2, D3)",
+    "note": "Trusted: as C08. Go panics are outside the model (their absence is checked by the hostile families only).",
+    "technique": "Lean 4 theorems over all states x all frames of total endpoint models + hostile-peer correspondence",
 }
 CLAIMS["C10"] = {
-    "text": "Tunnel level: while closing, a fresh new_stream yields exactly one close(Unavailable), no handler, unchanged table, tunnel up, id recorded (C10_refused, "
-            "C10_refused_state); later frames of the refused RPC are ignored (C10_later_frames_ignored); every stimulus other than new_stream behaves identically "
-            "whatever the flag (C10_flag_only_read_by_new_stream) so in-flight RPCs keep their outcome. " + _SRV +
-            " Lifecycle part (GracefulStop/Stop/Serve) is pending (W2).",
-    "design_ref": "DESIGN.md 6 (C10)",
-    "note": "Trusted: as C08. GracefulStop/Stop ordering is not yet modelled in this check.",
-    "technique": "Lean 4 theorems over the endpoint model + step-exact correspondence incl. shutdown-flag stimuli",
+    "text": "Tunnel level: while closing, a fresh new_stream yields exactly one close(Unavailable), no handler, unchanged table, tunnel up, id recorded (C10_refused); later "
+            "frames of the refused RPC are ignored (C10_later_frames_ignored); every stimulus other than new_stream behaves identically whatever the flag "
+            "(C10_flag_only_read_by_new_stream), so in-flight RPCs keep their outcome. " + _SRV + " " + _W1 + " Lifecycle world (real grpc-go on bufconn) for InitiateShutdown / "
+            "GracefulStop / Stop with zero, one and several tunnels. Open findings D9 (GracefulStop waits for idle tunnels' peers) and D10 are KNOWN-FINDING.",
+    "design_ref": "DESIGN.md A2 (C10), A4 (D9, D10)",
+    "note": "Trusted: as C08. GracefulStop/Stop ordering is covered by the API-granular Lifecycle model and its world, not by an interleaving-level theorem.",
+    "technique": "Lean 4 theorems over the endpoint model + step-exact correspondence incl. shutdown-flag stimuli and lifecycle world",
+}
+CLAIMS["C11"] = {
+    "text": "Theorem C11_select_eq_spec / C11_iff: for every pair of revision lists the client's selection loop picks exactly the highest revision both support, and fails iff "
+            "there is none; settings/no-settings and legacy peers as the endpoint code does it (Negotiate.lean); regenerated facts tie supportedRevisions, the settings stream id "
+            "and the negotiate header to the source. " + _CLI + " incl. malformed / empty / duplicate revision lists, and both option values on both ends.",
+    "design_ref": "DESIGN.md A2 (C11), A4 (D6)",
+    "note": "Trusted: Lean kernel; extractor facts; harness. grpc-go metadata transport of the negotiate header is exercised in the W2 worlds, not modelled.",
+    "technique": "Lean 4 theorem (selection = spec, all lists) + differential correspondence",
+}
+CLAIMS["C12"] = {
+    "text": "Theorems over the registry model: after every legal sequence of open/close/pick events the registry's pools hold exactly the open tunnels, per key (C12_exact, "
+            "C12_all), a routed RPC goes to an open tunnel of the right key (C12_routed_open, C12_routed_right_key), unavailable iff no tunnel for the key (C12_unavailable_iff, "
+            "C12_ready), and picks rotate fairly: n consecutive picks over n tunnels are a permutation (C12_round_robin, _key, _all). Tied to the code by the registry world: real "
+            "TunnelServiceHandler + ReverseTunnelServer over grpc-go on bufconn, random open/close/pick sequences, AllReverseTunnels/KeyAsChannel/Ready compared with the model.",
+    "design_ref": "DESIGN.md A2 (C12)",
+    "note": "Trusted: Lean kernel; API-granular model (one step = one API event at quiescence); grpc-go. The two registration steps of openReverseTunnel are below the model's granularity.",
+    "technique": "Lean 4 refinement of the registry to the set of open tunnels + correspondence against real grpc-go",
+}
+CLAIMS["C13"] = {
+    "text": "Every clause is a theorem about the frames the endpoint models emit, for every event sequence: settings first on id -1 and never again (C13_settings_first, "
+            "C13_no_other_settings); each message = one envelope with the exact size + contiguous continuations <= 16 KiB summing to it (C13_message_framing_client, "
+            "_server_partial, C13_chunk_is_16KiB); headers at most once and before data (C13_headers_once, C13_headers_before_data); half-close and cancel at most once, no data "
+            "after half-close (C13_halfClose_once, C13_cancel_once, C13_no_data_after_halfClose); exactly one close per accepted or rejected stream, last frame of a stream the "
+            "handler ended (C13_one_close, C13_rejected_one_close, C13_accepted_no_close_yet, C13_close_is_last, C13_reply_close_is_last); no window updates in revision zero. "
+            "The real frames are compared with the models' frames in full (view = all frames) in " + _W1 + " " + _SRV + " " + _CLI + " and checked against the same grammar by wire monitors.",
+    "design_ref": "DESIGN.md A2 (C13)",
+    "note": "Trusted: as C08; hypotheses where stated are the gRPC handler/caller contract (one send at a time, no SendMsg after CloseSend, unary reply last). Protobuf field encoding is protobuf-go's.",
+    "technique": "Lean 4 trace theorems over endpoint models (all event sequences) + full-frame correspondence and wire-grammar monitors",
+}
+CLAIMS["C14"] = {
+    "text": "Theorems for every reachable state: the server table is exactly the unfinished streams and a finished stream never re-enters (C14_server_table_exact, "
+            "C14_server_finished_stays_out); the client table is exactly the RPCs without terminal result and is empty after the channel ends (C14_client_table_exact, "
+            "C14_client_close_empties_table); the registry lists exactly the open tunnels (C14_registry_exact); goroutines: a finished RPC holds neither handler nor watcher "
+            "goroutine, the census is exactly handlers not returned + contexts not ended, zero after the tunnel ended and handlers returned, zero on the client after close "
+            "(C14_server_no_goroutine_left, C14_server_census, C14_server_after_tunnel_end, C14_client_no_goroutine_left, C14_client_after_tunnel_end). Tied to the code at every "
+            "quiescent moment of every scenario of " + _W1 + " " + _SRV + " " + _CLI + ": tables via Verif*State, goroutines via runtime.Stack filtered on goroutines created by library "
+            "functions, both compared with the model's table and census; registry and lifecycle worlds for the registry part.",
+    "design_ref": "DESIGN.md A2 (C14)",
+    "note": "Trusted: as C08; one-Send goroutines end when the carrier accepts or fails the Send (harness carriers never block; the census counts any that linger). GC-level retention is outside the model.",
+    "technique": "Lean 4 invariants (tables, goroutine census) over all reachable endpoint states + per-step census/table correspondence",
+}
+CLAIMS["C15"] = {
+    "text": "PARTIAL by nature (a proof about Go's memory model is outside Lean models of this code). What is proved: (a) the lockset argument itself, once, over an event model of "
+            "executions with mutexes, close/receive and go: common lock, publication and construction each imply happens-before, and a consistently protected variable has no "
+            "data race in any well-formed execution (C15_hb_of_common_lock, C15_hb_of_publication, C15_hb_of_go, C15_race_free_of_discipline); (b) on every run, that the CURRENT "
+            "sources obey the discipline: the go/ast extractor regenerates every access to every field of every shared struct with the locks held there (inter-procedurally, defers "
+            "unwound LIFO), and C15_discipline / C15_blocking_calls_hold_no_loop_lock / C15_lock_order_acyclic are decided by the kernel over that table (decide +kernel). "
+            "A removed or narrowed lock, an unlocked access, a new unprotected field, a callback under a loop lock or a lock-order cycle breaks the obligation and the offending rows are printed. "
+            "Search for failing inputs: race-instrumented stress of real grpc-go tunnels with random delays at the yield points (Trailer()/call-option reads right after completion, "
+            "Close/Stop during RPCs, registry queries during open/close).",
+    "design_ref": "DESIGN.md A2 (C15), A3",
+    "note": "Trusted: Lean kernel; the syntactic extractor (aliasing, closures stored and called later are treated as holding no lock); the hand-written protections table; the Go memory "
+            "model's definition of happens-before as transcribed in Lockset.lean; grpc-go/context internals are out of scope. The race detector is supporting evidence only.",
+    "technique": "Lean 4 lockset theorem + kernel-decided discipline obligations over a table regenerated from the source + race-detector stress",
 }
 CLAIMS["C16"] = {
-    "text": "Server side: a second SendMsg on a non-streaming response side is refused with Internal and emits no data (C16_second_send_refused); read errors "
-            "incl. the end-of-requests marker are sticky (C16_recv_after_eof, C16_recv_sticky). The look-ahead that turns a second request into InvalidArgument is part "
-            "of the model (resumeRead) and is exercised by raw-client scenarios with 0/1/2/many request messages in all chunkings. " + _SRV +
-            " Caller side (Invoke's extra RecvMsg, client look-ahead) pending (C-world).",
-    "design_ref": "DESIGN.md 6 (C16)",
-    "note": "Trusted: as C08. The unbounded statement 'at most one request is ever delivered' is checked by the monitor on implementation traces; its Lean proof over resumeRead is in progress.",
-    "technique": "Lean 4 theorems over the endpoint model + raw-client correspondence",
+    "text": "Theorems: a second SendMsg on a non-streaming response side is refused with Internal and emits no data (C16_second_send_refused); at most one request is ever "
+            "delivered to a handler of a non-client-streaming method over every operation sequence and later reads fail (C16_server_at_most_one, "
+            "C16_server_reads_fail_after_delivery); a second request fails the RPC with InvalidArgument (C16_second_request_fails); read errors are sticky; caller side: at most one "
+            "response for non-server-streaming methods, a second one fails the RPC with Internal (client theorems in the same file). " + _SRV + " " + _CLI + " " + _W1 +
+            " with 0/1/2/many messages in all chunkings.",
+    "design_ref": "DESIGN.md A2 (C16)",
+    "note": "Trusted: as C08.",
+    "technique": "Lean 4 theorems over the endpoint models (all operation sequences) + raw-peer correspondence",
+}
+CLAIMS["C17"] = {
+    "text": "Theorems over a model of Go contexts as binding stacks: a handler's context inherits the tunnel's values, carries exactly the RPC's request metadata and the tunnel "
+            "metadata accessor, and shares no mutable metadata object with another RPC or with the tunnel (C17_inherited, C17_handler_values, C17_channel, C17_private). The wiring "
+            "the model describes is tied to the source by regenerated extractor facts (ctxFacts: which context each constructor derives from, where MD.Copy is applied) and to "
+            "behaviour by the identity world: real grpc-go tunnels with identity-tagged values, peer, and metadata mutated by handlers and callers.",
+    "design_ref": "DESIGN.md A2 (C17)",
+    "note": "Trusted: Lean kernel; Go's context.WithValue / metadata.MD.Copy semantics; extractor facts; the identity harness.",
+    "technique": "Lean 4 theorems over a context/heap model + regenerated wiring facts + identity-tag correspondence",
+}
+CLAIMS["C18"] = {
+    "text": "Theorem C18_parse_eq_spec: for every list of grpc-timeout header values (arbitrary bytes, arbitrary length) the model of timeoutFromHeaders returns exactly what the "
+            "gRPC wire specification prescribes (1-8 digits + unit, saturating at 2^63-1 ns; malformed => no deadline), with corollaries C18_wellformed, C18_malformed, "
+            "C18_saturates. The model is tied to the code by running VerifTimeoutFromHeaders and the Lean definition on >20k boundary and random inputs per run; the deadline's "
+            "effect on the handler context is checked in the S- and W1 worlds.",
+    "design_ref": "DESIGN.md A2 (C18), A4 (D7)",
+    "note": "Trusted: Lean kernel; transcription of the gRPC timeout grammar into Timeout.spec; the differential harness. Modelled, not proved: that context.WithTimeout(parsed) is the handler's deadline.",
+    "technique": "Lean 4 theorem (parse = spec, all inputs) + differential correspondence on the real parser",
 }
 
 NOT_CLAIMED = {}
